@@ -7,6 +7,12 @@ CLAIMED = {
  "C01": ("DESIGN.md 4/C01",
    "Proof of function contracts: isHandledBuiltinCall is true exactly for *ssa.Builtin values with a handled name (and error.Error()), never for a user function that merely has a builtin's name; doBuiltinCall transfers whenever the call was declared handled and moves every argument of min/max/complex/len/real/imag/wrapnilchk, append and copy as the property requires; shared with C08: summary edges for every return index and every argument position. The end-to-end theorem (every explicit source-to-sink flow is reported) is not proved.",
    "Trusted: as C05 plus SSA lowering facts stated as preconditions (append/complex have two operands). Not decided: visitor dispatch, global stores through IndexAddr (anticipated finding, not yet under contract), soundness of the composition."),
+ "C02": ("DESIGN.md 4/C02",
+   "Proof of function contracts for the validator half: isValidatorCondition(ts, v, pos) answers true only if the branch `v evaluates to pos` implies that a call matching a validator specification reported success (true / nil error) -- polarity through !, == nil, != nil and tuple extraction proved against axioms stating Go's semantics of those operators; MatchNilCheck recognises exactly x==nil / x!=nil on error values and reports which; SimplePathCondition returns only conditions of If instructions on the given path with the polarity of the successor taken. The clause `every attached condition holds on ALL paths source->destination` is a known finding (5.7, with reproducer). The sanitizer half (BFS stop at sanitizer nodes) and the visitor's use of the conditions are not under contract.",
+   "Trusted: as C05; sem_*/acc_* axioms (Go semantics of !, ==nil, !=nil, Extract; acc_call: a matched call that reported success is an accepted validation); assumed contracts of IsMatchingCodeIDWithCallee (true only if the node matched) and FindPathBetweenBlocks (path blocks non-nil); deps axiom if_two_succs. Recursion: partial correctness (termination of the structural recursion not proved)."),
+ "C03": ("DESIGN.md 4/C03",
+   "Proof of one function contract (thin): backtrace.isBaseCase lets the backward traversal stop at a node (reporting the trace that ends there) only when the node has no intra-procedural incoming edge, and never at a node kind that receives inter-procedural flows (parameter, call, call argument, closure, bound variable, free variable, a read of a global that is written somewhere or any global read under on-demand summarisation, a global write with incoming edges); the function literal inside isBaseCase is executed in place. The traversal itself (Visitor.visit: call-stack unwinding, closure jumps, trace reconstruction) is not under contract; the single-tuple-index defect that affects it is the known finding recorded under C17.",
+   "Trusted: as C05; getters In()/Global are executed by inlining over the closed world of node kinds."),
  "C04": ("DESIGN.md 4/C04",
    "Proof of function contracts: a code identifier with compiled regexes has all of them compiled (compileRegexes / compileRegexOrLiteral never store nil), the matcher never dereferences nil and its result is exactly the conjunction, field by field, of `reference field empty or its own regex matches` plus Kind equality (both the regex and the literal branch); builtin-name shadowing obligation shared with C01. Callee resolution through points-to sets is not covered.",
    "Trusted: as C05; assumed contracts of regexp.Compile/MustCompile/MatchString (deps.spec); the Interface field clause is outside the claim (cidRef.Interface == \"\")."),
@@ -22,11 +28,20 @@ CLAIMED = {
  "C09": ("DESIGN.md 4/C09",
    "Proof plus exhaustive table conformance: addParamEdgeByPos returns true and records the edge in both directions exactly when both positions are parameters; addReturnEdgeByPos rejects bad positions; PopulateGraphFromSummary calls them for every listed pair and marks the graph; and for EVERY entry of the standard-library summary table whose key resolves against the installed standard library (318 of 338) every listed position exists in the function's go/types signature (one ground obligation per entry). That a summary over-approximates the library function's behaviour is not decided.",
    "Trusted: as C05; go/types signatures of the installed standard library. 20 keys do not resolve to any function (typos such as flat.DurationVar, ' sync/atomic.StoreInt32'); they are listed in the evidence, not failed."),
+ "C10": ("DESIGN.md 4/C10",
+   "Proof of function contracts: PopulateGraphFromSummary adds, for every listed pair (i -> argument k, i -> result j) of a user specification, exactly that edge in both directions and nothing for positions outside the signature (addParamEdgeByPos / addReturnEdgeByPos, shared with C09); ResolveCallee returns ONLY the interface contract's summarised function (Type InterfaceContract) when contracts are consulted and the method key has a specification, before looking at the call graph or the implementations; LoadExternalContractSummary returns the function specification stored under the callee's full name (and nil when there is none). That the linked graph is then used unchanged by the traversals, and that function bodies with a specification are never summarised (ShouldBuildSummary with a pkg-filter), is not under contract.",
+   "Trusted: as C05; assumed (interface-method contracts) Optional.ValueOr/IsSome/Value are pure; lang.InstrMethodKey pure."),
+ "C12": ("DESIGN.md 4/C12",
+   "Proof of function contracts: CallGraphReachable returns a set that contains every entry point selected by findCallgraphEntryPoints and is CLOSED under call-graph edges (worklist loop with inductive invariant: an edge out of a reachable function is already followed or its source node is still on the worklist), for every well-formed call graph; ResolveCallee returns the static callee when there is one and otherwise, when contracts are not consulted, EVERY callee of a call-graph edge of the enclosing function at this call site. That the call graph built by the vendored pointer analysis contains every run-time call (C11) is not decided.",
+   "Trusted: as C05; precondition cgwf (x/tools callgraph invariant: Nodes[f].Func == f, edges point at canonical nodes) is stated, not proved; Optional accessors assumed pure."),
+ "C13": ("DESIGN.md 4/C13",
+   "Proof of function contracts (thin): taint.Visitor.checkEscape reports (addNewEscape) every instruction of the visited node's mark map -- iterated in arbitrary order -- that is not a call and whose entry in the context's InstructionLocality is a non-nil rationale (not classified thread-local), for an arbitrary such instruction; addNewEscape records the pair in Flows.Escapes (the map whose non-emptiness makes the tool exit with failure) whenever the source node has an instruction; raiseAlarm and the logger do not touch the locality maps (frames). Together with C14 (instructionLocality never calls an unknown or shared access local). Not under contract: that manageEscapeContexts computes a context for every visited function (missing contexts are reported as errors by the code, not proved), context propagation across calls/closures, and the soundness of the escape graphs (C15 core only).",
+   "Trusted: as C05; assumed deps contract log.Logger.Printf modifies nothing; dataflow.Instr pure."),
  "C14": ("DESIGN.md 4/C14",
    "Proof of function contract: escape.instructionLocality returns, for every memory-accessing instruction kind (store, load through any pointer type incl. named ones, channel receive/send, map update/lookup/range/next, type assertion, select), exactly the verdict of derefsAreLocal on the node of the accessed operand, and never classifies an unknown instruction kind as local; EscapeGraph.nodes is immutable after construction (checked frame scan). Soundness of the escape graph w.r.t. executions and schedules is not proved.",
-   "Trusted: as C05; assumed contract of NodeGroup.ValueNode (returns the node of the value). Known finding 5.12 (by-value struct arguments not mapped into callee context) is not yet under contract."),
+   "Trusted: as C05; assumed contract of NodeGroup.ValueNode (returns the node of the value). Resolve (call-site context) maps the receiver and every nillable argument onto the callee parameter of the matching position (invoke mode shifted by one); known finding 5.12: by-value struct arguments holding pointers are not mapped."),
  "C15": ("DESIGN.md 4/C15",
-   "Proof of function contracts: the basic escape-graph operations are extensive (they never lower a status nor remove a node or edge): AddNode adds exactly the missing node with its intrinsic status and keeps the graph well-formed; computeEdgeClosure propagates the source's status to the target, never lowers a status and leaves edges untouched (worklist loop over a map iterated in arbitrary order, frame proved); MergeNodeStatus raises n to at least s and lowers nothing. The semilattice laws of Merge (idempotent/commutative/associative, upper bound) and monotonicity of the ~40 transfer cases are not proved.",
+   "Proof of function contracts: the basic escape-graph operations are extensive (they never lower a status nor remove a node or edge): AddNode adds exactly the missing node with its intrinsic status and keeps the graph well-formed; computeEdgeClosure propagates the source's status to the target, never lowers a status, leaves edges untouched (frame proved) and CLOSES the graph again: every edge that was closed before (target at least as escaped as source), and the edge a->b, is closed afterwards (worklist invariant over a map iterated in arbitrary order: every raised node is re-visited); MergeNodeStatus raises n to at least s, lowers nothing, keeps closed edges closed and closes all edges out of n when it raised n. The semilattice laws of Merge (idempotent/commutative/associative, upper bound) and monotonicity of the ~40 transfer cases are not proved.",
    "Trusted: as C05; assumed deps contracts (fmt.Sprintf modifies nothing). Merge/AddEdge/LessEqual are not yet under contract."),
  "C16": ("DESIGN.md 4/C16",
    "Proof of function contracts, for all inputs and all iterations: stackCompare is the lexicographic comparison of (Block, Ins) sequences (functional correctness, safety, termination) and, as lemmas derived from that contract only, a total preorder compatible with content equality (reflexive, antisymmetric, four transitivity laws); stackSetUnion returns a strictly sorted (duplicate-free) set containing exactly the stacks of both arguments, reports sameAsA exactly when every stack of b already occurs in a, and terminates (three merge loops with inductive invariants); stackPushed returns s ++ [(block, ins)] in a fresh array; dataflowTransfer is the identity on non-defer instructions, resets on RunDefers and reports `repeated` exactly when some incoming stack already contains the defer. Equality of the computed sets with the sets of path-wise defer sequences (MOP = MFP for this distributive framework) and termination of the outer fixpoint are not proved.",
